@@ -224,10 +224,10 @@ fn small(args: &Args) -> i32 {
     let fs = u(&parse_set(&args.str("fs", "0,1,3,5,9,10,11,15")));
     let gs = u(&parse_set(&args.str("gs", "2,12")));
     let rfs = u(&parse_set(&args.str("rfs", "0,1,3,5,9,10,11,15")));
-    let discs = parse_set(&args.str("discs", "-1,0,1,3,5,9,10,11,15"));
+    let discs = parse_set(&args.str("discs", "-1,0,1,3,5,9,10,11,15,20,21,30"));
     let ofs = u(&parse_set(&args.str("ofs", "0,1,5,10,11,15")));
     let orfs = u(&parse_set(&args.str("orfs", "0,4,10,15")));
-    let odiscs = parse_set(&args.str("odiscs", "-1,0,5,10,15"));
+    let odiscs = parse_set(&args.str("odiscs", "-1,0,5,10,15,21,30"));
     let prs = prices(&args.str("prices", "1/1,2/3,3/3,0/1"));
     let lfs = u(&parse_set(&args.str("lfs", "0,1,3,5,9,10,11,15")));
     let lrfs = u(&parse_set(&args.str("lrfs", "0,1,3,5,9,10,11,15")));
@@ -312,7 +312,7 @@ where
             pf: factor(&mut rng),
             nf: factor(&mut rng),
             rf: factor(&mut rng),
-            disc: if rng.chance(1, 4) { -1 } else { factor(&mut rng) as i64 },
+            disc: if rng.chance(1, 4) { -1 } else if rng.chance(1, 6) { (factor(&mut rng) * 3) as i64 } else { factor(&mut rng) as i64 },
             change: rng.range(-1, 1),
             lf: if op == "liq_fees" { factor(&mut rng) } else { 0 },
             lrf: if op == "liq_fees" { factor(&mut rng) } else { 0 },
